@@ -3,6 +3,7 @@ package harness
 import (
 	"bytes"
 	"crypto/tls"
+	"crypto/x509"
 	"fmt"
 	"math/rand/v2"
 	"net"
@@ -90,6 +91,10 @@ func genC18(seed uint64, tier string) *plan.Plan {
 		if !reuse && pl.Cfg["v6"] == 0 && r.IntN(12) == 0 {
 			// a collector that is configured by host name, ServerName unset
 			op.A, op.B = 6, 0
+			op.N[4] = 0
+		} else if !reuse && d < 20 && r.IntN(14) == 0 {
+			// an exporter that paces its handshake across the end of its certificate's validity
+			op.A, op.B = 7, 0
 			op.N[4] = 0
 		} else if !reuse && r.IntN(12) == 0 {
 			// a collector whose client-CA setting holds no usable certificate, started more than once
@@ -259,6 +264,8 @@ func runC18(pl *plan.Plan, out *plan.Outcome) {
 				c18RealCollector(env, where, addr, proto, srvCerts[cert], cliCA == 1, z, ein, c18Expectation(proto, cert, day, snMode, cliCert, cliCA, v6, hostB), uint32(900+si))
 			case 1:
 				c18CappedServer(env, where, addr, maxV, z, ein)
+			case 7:
+				c18PacedHandshake(env, where, addr, z, uint32(900+si), day)
 			case 2:
 				c18PlaintextSender(env, where, addr, proto, z, uint32(900+si))
 			case 3:
@@ -535,6 +542,9 @@ func c18UnusableClientCA(env *Env, where, addr string, z *zoo, ein exporter.Expo
 	waitOrTimeout(stopped, 2*time.Minute)
 	cp.CloseMsgChan()
 	waitOrTimeout(consumed, time.Second)
+	if env.Net.Listening(addr) {
+		env.Violate("socket-leak", "unusable-settings", "%s: the collector's address is still bound after Stop returned", where)
+	}
 	mine, plain := 0, 0
 	for _, d := range got {
 		if d.Domain == domain {
@@ -712,6 +722,76 @@ func c18CappedServer(env *Env, where, addr string, maxV int, z *zoo, ein exporte
 	}
 	if ver >= tls.VersionTLS12 && ierr != nil {
 		env.Violate("valid-session-refused", "tls", "%s: server with a trusted certificate speaking TLS %#x was refused: %v", where, ver, ierr)
+	}
+}
+
+// pacedConn lets the first Write through (the ClientHello) and holds the later ones back until a
+// point in time: the peer decides when its next handshake flight leaves.
+type pacedConn struct {
+	net.Conn
+	env    *Env
+	writes int
+	until  time.Time
+}
+
+func (p *pacedConn) Write(b []byte) (int, error) {
+	p.writes++
+	if p.writes == 2 {
+		if d := time.Until(p.until); d > 0 {
+			p.env.Sleep(d)
+		}
+	}
+	return p.Conn.Write(b)
+}
+
+// c18PacedHandshake: an exporter whose certificate (issued by the collector's client CA, valid until
+// day 20) is still valid when it says hello and has expired by the time it presents it - it holds
+// its second handshake flight back until day 22. The certificate is judged when it is presented.
+func c18PacedHandshake(env *Env, where, addr string, z *zoo, domain uint32, day int) {
+	if day >= 20 {
+		return
+	}
+	cin := collector.CollectorInput{Address: addr, Protocol: "tcp", MaxBufferSize: 65535, IsEncrypted: true, ServerCert: z.SrvGood.CertPEM, ServerKey: z.SrvGood.KeyPEM, CACert: z.CA.PEM, TemplateTTL: 7200}
+	stop, err := c18StartCollector(env, cin)
+	if err != nil {
+		env.Out.Trouble = "collector: " + err.Error()
+		return
+	}
+	cert, cerr := tls.X509KeyPair(z.CliExpired.CertPEM, z.CliExpired.KeyPEM)
+	if cerr != nil {
+		env.Out.Trouble = "client certificate: " + cerr.Error()
+		return
+	}
+	pool := x509.NewCertPool()
+	pool.AppendCertsFromPEM(z.CA.PEM)
+	var raw net.Conn
+	Block("dial", func() { raw, err = env.Net.Dial("tcp", addr) })
+	if err == nil {
+		pc := &pacedConn{Conn: raw, env: env, until: bubbleEpoch.AddDate(0, 0, 22)}
+		// the client does not care about the date; what is at stake is what the collector makes of it
+		c := tls.Client(pc, &tls.Config{RootCAs: pool, ServerName: serverDNSName, Certificates: []tls.Certificate{cert}, MinVersion: tls.VersionTLS12, Time: func() time.Time { return bubbleEpoch }})
+		var herr error
+		Block("handshake", func() { herr = c.Handshake() })
+		env.Count("fault.client_certificate_expires_during_the_handshake", 1)
+		if herr == nil {
+			t := gTemplate{Dom: domain, ID: 256, Fields: []gField{{F: ipfixref.Field{ID: 7, Len: 2}, Known: true, Width: 2}}}
+			for _, m := range [][]byte{t.templateMsg(ipfixref.Header{}), t.dataMsg(ipfixref.Header{}, []byte{1, 2})} {
+				Block("write", func() { c.Write(m) })
+				env.Sleep(100 * time.Millisecond)
+			}
+			env.Sleep(time.Second)
+		}
+		c.Close()
+	}
+	got := stop()
+	mine := 0
+	for _, d := range got {
+		if d.Domain == domain {
+			mine++
+		}
+	}
+	if mine > 0 {
+		env.Violate("delivered-from-unauthenticated-exporter", "expired-during-handshake", "%s: the exporter's certificate was valid when it said hello on day %d and had expired (day 20) when it presented it on day 22; the collector delivered %d messages from it", where, day, mine)
 	}
 }
 
